@@ -662,9 +662,14 @@ def gen_model(seed):
            if p['type'][0] == 'union'):
         scal.append(S_NULL)
     tags = ['map'] + ['!' + c['name'] for c in plain[-2:]]
+    # the round trip is claimed for the models without seasoning and without
+    # a custom recogniser (a rename on loading has no inverse on dumping)
+    hookfree = not any(c['hassav'] or c['hasrecog'] for c in classes)
     return M('gen%d' % seed, classes, dts, keys=keys, scalars=scal,
              mtags=tuple(tags), qn=5, tn=6, rootk='m', nodup=True,
-             rtypes=[], family='gen', note='generated, seed %d' % seed)
+             rtypes=dts if hookfree else [], family='gen',
+             strs=['abc', 'red'], qo=4, to=5,
+             note='generated, seed %d' % seed)
 
 
 # core tags of the abstract documents ('!'-prefixed tags are local tags)
